@@ -170,7 +170,7 @@ func c12Mutate(t *rapid.T, doc []byte) ([]byte, []string) {
 	n := rapid.IntRange(0, 4).Draw(t, "nmut")
 	for i := 0; i < n; i++ {
 		lines := bytes.SplitAfter(doc, []byte("\n"))
-		k := rapid.SampledFrom([]string{"del-line", "dup-line", "swap-lines", "truncate", "insert", "long-line", "only-blanks", "only-bullets", "sharp-run", "indent-first", "mix-indent", "replace-byte", "del-byte", "double-cr"}).Draw(t, "mut")
+		k := rapid.SampledFrom([]string{"del-line", "dup-line", "swap-lines", "truncate", "insert", "long-line", "only-blanks", "only-bullets", "sharp-run", "indent-first", "mix-indent", "replace-byte", "del-byte", "double-cr", "unicode-blank-line"}).Draw(t, "mut")
 		kinds = append(kinds, k)
 		li := 0
 		if len(lines) > 1 {
@@ -226,6 +226,18 @@ func c12Mutate(t *rapid.T, doc []byte) ([]byte, []string) {
 				doc = append([]byte{}, doc...)
 				doc[rapid.IntRange(0, len(doc)-1).Draw(t, "pos")] = rapid.Byte().Draw(t, "byte")
 			}
+		case "unicode-blank-line":
+			// a whole row that only Unicode-aware code calls blank (form feed, vertical tab, NBSP, ideographic space, NEL ...)
+			blank := []byte(rapid.SampledFrom([]string{"\f", "\v", "\u00a0", "\u3000", "\u0085", "\u2003 \t", "\f\v", "\u2028", "\u1680"}).Draw(t, "ublank") + "\n")
+			pos := li
+			if pos > len(lines) {
+				pos = len(lines)
+			}
+			if rapid.Bool().Draw(t, "atStart") {
+				pos = 0
+			}
+			lines = append(lines[:pos], append([][]byte{blank}, lines[pos:]...)...)
+			doc = bytes.Join(lines, nil)
 		case "double-cr":
 			// a row that ends in CR before its CRLF/LF terminator (the name keeps one CR)
 			if idx := bytes.IndexByte(doc, '\n'); idx >= 0 {
@@ -317,7 +329,7 @@ var c12Constants = []string{"", "\n", " ", "\t", "\r\n", "   \n\t\n", "-", "- ",
 	"a", "x - y", "\x00", "\xff\xfe", "- \x00", "- a\x00b\n  - c", "# a\n- b\n  - c\n# d\n- e", "\n\n- a\n\n  - b\n\n", "- a\r\n  - b\r\n", "- a\r  - b\r", "-a", "-  a", "- a\n - b\n  - c\n   - d",
 	"- a\n\t- b\n  - c", "- a\n  - b\n\t- c", "# a\n## b\n### c", "#a", "# #", "- #", "- a\n# b\n- c\n  - d", string(rune(0xFEFF)) + "- a\n  - b", "- a\n  - b\n - c", strings.Repeat("- a\n", 50),
 	strings.Repeat(" ", 70000), "- " + strings.Repeat("x", 70000), strings.Repeat("- a\n", 3) + "- " + strings.Repeat("y", 65536) + "\n- b\n", "- a\n" + strings.Repeat("  ", 40) + "- deep",
-	"- a\r\r\n  - b\r\r\n- c\r\n", "# a\r\r\n- b\r\n", "- ..\n  - ..\n    - ..", "- /\n  - /", "- a\n  - ../../../x", "- .\n  - .", "- a/b", "-\t-\t-", "* + -", "+ * #", "- a\n  * b\n    + c\n  + d\n* e"}
+	"\f", "\v\n", "\u3000\n", "\u00a0\n- a\n  - b\n", "\f\n- a\n", "\u0085\n\u2028\n", "- a\n\f\n- b\n", "\u00a0", "- a\r\r\n  - b\r\r\n- c\r\n", "# a\r\r\n- b\r\n", "- ..\n  - ..\n    - ..", "- /\n  - /", "- a\n  - ../../../x", "- .\n  - .", "- a/b", "-\t-\t-", "* + -", "+ * #", "- a\n  * b\n    + c\n  + d\n* e"}
 
 func TestC12Constants(t *testing.T) {
 	col := coll("C12", "constants")
